@@ -1,4 +1,6 @@
+pub mod big;
 pub mod result;
+pub mod splay;
 
 use crate::exec::Prec;
 use crate::gen::strat;
